@@ -66,10 +66,29 @@ DESCR = {
               'targeted clean (--rm DIR) of the run that runN points at'),
     'S-C44': ('workflow_db_mgr.py on_workflow_start: chmod of the private DB only on a cold start',
               'private DB replaced while the scheduler is down by a copy with umask-default permissions, then a restart'),
+    'S-C01b': ('task_events_mgr.py process_message: implied outputs from the raw message (same change as S-C09, made independently)',
+               'a :started trigger on a task whose job fails with a suffixed message while its started message is late or lost'),
+    'S-C03b': ('task_job_mgr.py _prep_submit_task_job_error: is_manual_submit no longer reset',
+               'manual trigger + job preparation failing before submission + a submission retry delay'),
+    'S-C11b': ('task_proxy.py copy_to_reload_successor: outputs replayed by message, forced completions dropped',
+               'required output completed with `cylc set`, then a reload, then the job succeeds without emitting it'),
+    'S-C19b': ('workflow_db_mgr.py put_broadcast cancel filter: any -> all',
+               'broadcast set and a different one sharing point, namespace or key cancelled in one iteration, then restart'),
+    'S-C20b': ('workflow_db_mgr.py put_task_pool: retry timers that never timed out are not stored',
+               'scheduler killed or stopped while the first job of a task with retry delays is live; the job then fails'),
+    'S-C25b': ('data_store_mgr.py delta_task_state: pending delta no longer compared',
+               'status leaving and returning to the stored state between two store updates (prep failure with submission retry)'),
+    'S-C30b': ('task_pool.py load_db_task_pool_for_restart: satisfied prerequisites reloaded as booleans',
+               '`cylc set --pre`, restart, then `cylc remove` of the parent'),
     'S-C31': ('cycling/integer.py get_nearest_prev_point reduced to get_prev_point',
               'sequential task on a finite recurrence followed after a gap by another recurrence'),
 }
 NOTES = {
+    'S-C01b': 'caught by C09 and C10; C01 does not see it (with message loss its closure check only gives a lower bound)',
+    'S-C03b': 'first missed: no check combined manual triggers with job-preparation failures; the bash -n seam now injects them and C28 got the stranded-member rule',
+    'S-C11b': 'caught by C27 (outputs across a reload), not by C11',
+    'S-C19b': 'caught by C22; C19 issues no broadcast cancel',
+    'S-C30b': 'first missed: restart snapshots compared prerequisite satisfaction as booleans and no run had force-satisfied prerequisites; C19 now keeps the kind of satisfaction and issues `set --pre`',
     'S-C44': 'first missed: no file was ever replaced between the incarnations; a restore-from-copy variant was added',
     'S-C32': 'first caught only by C27; C32 got a command mode (trigger of a clock-expire task into a full queue, reload)',
     'S-C48': 'first missed: the install/clean histories had no targeted clean; operation and two rules added',
